@@ -15,8 +15,8 @@ PROP = dict(
     theorems=['Fit.C20.C20_conceal_hides', 'Fit.C20.C20_conceal_records_exact', 'Fit.C20.C20_conceal_only_positions',
               'Fit.C20.C20_remove_exact', 'Fit.C20.C20_reduce_exact_distance', 'Fit.C20.C20_reduce_exact_distance_mono',
               'Fit.C20.C20_reduce_exact_time', 'Fit.C20.C20_reduce_conserves', 'Fit.C20.C20_reduce_rdp_sublist', 'Fit.C20.C20_reduce_rdp_exact',
-              'Fit.C20.C20_combine_order', 'Fit.C20.C20_combine_sort', 'Fit.C20.C20_conceal_lap_session_F17_witness',
-              'Fit.C20.C20_conceal_lap_session_start_partial', 'Fit.C20.C20_conceal_lap_session_end', 'Fit.C20.C20_conceal_lap_session_none_revealed', 'Fit.C20.C20_agg_invalid_neutral'],
+              'Fit.C20.C20_combine_order', 'Fit.C20.C20_combine_sort', 'Fit.C20.C20_combine_accumulate', 'Fit.C20.C20_combine_closed_form', 'Fit.C20.C20_conceal_lap_session_F17_witness',
+              'Fit.C20.C20_conceal_lap_session_partial', 'Fit.C20.C20_conceal_lap_session_start_partial', 'Fit.C20.C20_conceal_lap_session_end', 'Fit.C20.C20_conceal_lap_session_none_revealed', 'Fit.C20.C20_agg_invalid_neutral'],
     families=[dict(name='activity', prop=True), dict(name='agg')],
     trusted_base=STD_TRUST + [
         "message and field numbers (record/lap/session/…, position, distance, start_time, total_timer_time) and the remover's list of known message numbers are printed from the compiled packages on every run (Generated/ToolConsts.lean)",
@@ -29,6 +29,6 @@ PROP = dict(
 
 TEXT = dict(
     technique='Lean 4 proof on a message-level model of cmd/fitactivity (scans, lap/session rewrite, swap-compaction loops, accumulator) + differential tie running the real packages on generated activities',
-    text='Theorems C20_conceal_hides / _records_exact / _only_positions, C20_conceal_lap_session_start_partial / _end / _none_revealed (the full lap/session statement is refuted on the F17 witness), C20_remove_exact, C20_reduce_exact_*, C20_reduce_rdp_sublist, C20_combine_order and C20_combine_sort hold for every message list; the model is compared with the real concealer, remover, reducer and combiner on generated activities and the property predicates are evaluated on the implementation output.',
+    text='Theorems C20_conceal_hides / _records_exact / _only_positions, C20_conceal_lap_session_partial (no lap/session position into a concealed stretch, for every activity outside the class of the open finding KF-C20-1; the full statement is refuted on the F17 witness) with its stage theorems _start_partial / _end / _none_revealed, C20_remove_exact, C20_reduce_exact_*, C20_reduce_rdp_sublist / _exact, C20_combine_order, C20_combine_sort and C20_combine_accumulate (closed form out = in + Σ last values of the earlier files, through the accumulator invariant) hold for every message list; the model is compared with the real concealer, remover, reducer and combiner on generated activities and the property predicates are evaluated on the implementation output.',
     note='Trusted: Lean kernel; the harness/driver line protocol; rdp.Simplify and the stable sort per contract.',
 )
